@@ -45,6 +45,8 @@ class CallMixin:
             return self.call_method(fn, args, kwargs, node)
         if isinstance(fn, ModuleRef):
             return self.call_module_fn(fn.name, args, kwargs, node)
+        if isinstance(fn, SV) and fn.ty.kind == "opt":
+            fn = self.coerce(fn, fn.ty.args[0], line)  # TypeError: 'NoneType' object is not callable
         if isinstance(fn, SV) and fn.ty.kind == "opaque":
             return self.call_opaque(fn, "__call__", args, kwargs, node)
         if isinstance(fn, SV) and fn.ty.kind == "obj":
@@ -689,17 +691,35 @@ class CallMixin:
         return e
 
     def construct_plain(self, name, args, kwargs, node):
-        fields = self.w.plain_classes[name]
-        vals = []
-        given = dict(kwargs)
-        for (f, _), a in zip(fields, args):
-            given[f] = a
-        for f, ft in fields:
-            if f not in given:
-                raise Unsupported(f"plain class {name}: missing field {f} at construction")
-            vals.append(self.coerce(given[f], ft, node.lineno).term)
-        _, ctor, _ = self.w.obj(name)
-        return SV(ctor(*vals), T.Obj(name), fresh=True)
+        """ordinary (non-dataclass) class whose fields the spec declares: the object is built by executing the
+        class's real __init__ on a fresh instance (fields unset = arbitrary until assigned)"""
+        ci = self.w.repo.find_class(name)
+        init = None
+        if ci is not None:
+            for cn in self.w.repo.mro_names(ci):
+                c2 = self.w.repo.find_class(cn, ci.module)
+                if c2 is not None and "__init__" in c2.methods:
+                    init = c2.methods["__init__"]
+                    break
+        t = T.Obj(name)
+        if init is None:
+            fields = self.w.plain_classes[name]
+            given = dict(kwargs)
+            for (f, _), a in zip(fields, args):
+                given[f] = a
+            vals = []
+            for f, ft in fields:
+                if f not in given:
+                    raise Unsupported(f"plain class {name}: missing field {f} at construction")
+                vals.append(self.coerce(given[f], ft, node.lineno).term)
+            _, ctor, _ = self.w.obj(name)
+            return SV(ctor(*vals), t, fresh=True)
+        obj = SV(self.w.fresh(t, f"new_{name}"), t, fresh=True)
+        ref = self.new_cell(obj)
+        self_val = self.read_ref(ref)
+        self.inline_call(init, args, kwargs, node.lineno, self_val=self_val)
+        out = self.read_ref(ref)
+        return SV(out.term, t, fresh=True)
 
     # ---------------------------------------------------------- functions
     def bind_params(self, fnode, args, kwargs, module, self_val=None):
@@ -1273,8 +1293,14 @@ class CallMixin:
             kws = ",".join(sorted(kwargs))
             f = self.w.func(f"call<{tag}.{name}({kws})/{','.join(str(x.sort()) for x in av)}>",
                             *[x.sort() for x in rs + av], self.w.sort(rt))
-            return SV(f(*(rs + av)), rt)
-        return self.fresh_value(rt, f"{name}.ret")
+            out = SV(f(*(rs + av)), rt)
+        else:
+            out = self.fresh_value(rt, f"{name}.ret")
+        if spec.get("post"):
+            # assumed library contract, e.g. random.uniform(a, b) lies in [a, b]
+            pfn = self.specs.fns[spec["post"]]
+            self.side_fact(self.truthy(self.call_specfn(pfn, list(args) + [out], {}, line)))
+        return out
 
     def call_module_fn(self, fq: str, args, kwargs, node):
         line = node.lineno
